@@ -705,7 +705,9 @@ class PSFPhotFamily:
                 if rng.chance(0.3):
                     cols.append('local_bkg')
                 init = {'cols': cols, 'reverse': rng.chance(0.3),
-                        'masked_source': rng.chance(0.07)}
+                        'masked_source': rng.chance(0.1),
+                        'masked_index': rng.randrange(6),
+                        'zero_error': rng.chance(0.07)}
             if not st.cfg['finder'] and rng.chance(0.08):
                 init = None      # reject: no finder and no init_params
             return {'op': 'call', 'image': i, 'mask': rng.chance(0.3),
@@ -742,10 +744,18 @@ class PSFPhotFamily:
             if 'local_bkg' in cols:
                 t['local_bkg'] = [0.1 * k for k in range(len(rows))]
             init = t
+            # faults inside the fit loop: a completely masked source or a
+            # zero error pixel at one of the *later* sources makes the call
+            # raise after earlier groups were already processed
             if op['init'].get('masked_source'):
                 mask = np.zeros(data.shape, bool) if mask is None else mask
-                x, y = int(round(rows[0][0])), int(round(rows[0][1]))
+                r = rows[op['init'].get('masked_index', 0) % len(rows)]
+                x, y = int(round(r[0])), int(round(r[1]))
                 mask[max(0, y - 6):y + 7, max(0, x - 6):x + 7] = True
+            if op['init'].get('zero_error'):
+                error = dec(sc['error']).copy() if error is None else error
+                r = rows[-1]
+                error[int(round(r[1])), int(round(r[0]))] = 0.0
         return data, mask, error, init
 
     @staticmethod
